@@ -9,7 +9,8 @@
 //   - go f(a, b)  ->  { f0, t0, t1 := f, a, b; simrt.Go("file:line", func() { f0(t0, t1) }) };
 //   - x.Lock()/RLock()/Unlock()/RUnlock() (also deferred) -> simrt.Lock(x.Lock, x.TryLock) / simrt.Unlock(x.Unlock);
 //   - per-file import redirects net -> crsim/simnet, os and io/ioutil -> crsim/simos, net/http -> crsim/simhttp;
-//   - cmd/carbon-relay-ng is reduced to package crngmain holding readConfigFile/expandVars.
+//   - cmd/carbon-relay-ng becomes package crngmain without main() and usage(), so that the config-file
+//     helpers are callable.
 //
 // Anything it does not understand makes it fail with exit 2 rather than guess.
 package main
@@ -108,7 +109,7 @@ func main() {
 	}
 	dst := filepath.Join(out, "crngmain", "crngmain.go")
 	must(os.MkdirAll(filepath.Dir(dst), 0755))
-	must(ioutil.WriteFile(dst, instrument(rel, b, []string{"readConfigFile", "expandVars"}), 0644))
+	must(ioutil.WriteFile(dst, instrument(rel, b, []string{"main", "usage"}), 0644))
 	var keys []string
 	for k := range stats {
 		keys = append(keys, k)
@@ -141,26 +142,22 @@ func instrument(rel string, src []byte, keepFuncs []string) []byte {
 	rw := &rewriter{rel: rel, fset: fset}
 
 	if keepFuncs != nil {
-		keep := map[string]bool{}
+		// package main becomes the importable package crngmain: everything is kept except the
+		// functions named in keepFuncs (main, usage), so the config helpers stay callable
+		drop := map[string]bool{}
 		for _, k := range keepFuncs {
-			keep[k] = true
+			drop[k] = true
 		}
 		var decls []ast.Decl
 		for _, d := range f.Decls {
-			switch x := d.(type) {
-			case *ast.GenDecl:
-				if x.Tok == token.IMPORT {
-					decls = append(decls, d)
-				}
-			case *ast.FuncDecl:
-				if x.Recv == nil && keep[x.Name.Name] {
-					delete(keep, x.Name.Name)
-					decls = append(decls, d)
-				}
+			if fd, ok := d.(*ast.FuncDecl); ok && fd.Recv == nil && drop[fd.Name.Name] {
+				delete(drop, fd.Name.Name)
+				continue
 			}
+			decls = append(decls, d)
 		}
-		if len(keep) != 0 {
-			die("%s: functions not found: %v", rel, keep)
+		if len(drop) != 0 {
+			die("%s: functions not found: %v", rel, drop)
 		}
 		f.Decls = decls
 		f.Name.Name = "crngmain"
